@@ -302,6 +302,9 @@ def install(rec):
     preserve("gauge_all_simple", output_kw=None, extra_tol=1e-7)
     preserve("gauge_all_random", output_kw=None)
     preserve("gauge_local", output_kw=None, extra_tol=1e-7)
+    preserve("replace_with_svd", output_kw=None, extra_tol=1e-9,
+             domain=lambda self, where, left_inds, eps, **k: eps == 0.0 and k.get("method") == "svd"
+             and k.get("max_bond") is None)
     preserve("insert_gauge", output_kw=None, extra_tol=1e-7)
     preserve("compress_between", output_kw=None, post_form=no_growth, domain=untrunc)
     preserve("compress_all", output_kw=None, post_form=no_growth, domain=untrunc)
@@ -576,7 +579,7 @@ def one_rewrite(rng, tn, hyper):
                 "compress_all_simple", "rank_simplify", "diagonal_reduce", "antidiag_gauge",
                 "column_reduce", "split_simplify", "pair_simplify", "loop_simplify",
                 "full_simplify", "compress_simplify", "expand_bond_dimension",
-                "tensor_pair", "gauge_simple_temp"]
+                "tensor_pair", "gauge_simple_temp", "replace_with_svd"]
     else:
         ops += ["hyperinds_resolve", "rank_simplify", "diagonal_reduce", "column_reduce",
                 "full_simplify", "hyperinds_resolve"]
@@ -595,6 +598,21 @@ def one_rewrite(rng, tn, hyper):
                 return ta[0], tb[0], ix
         return None
 
+    if name == "replace_with_svd":
+        # a tagged section replaced by its (untruncated) two-factor decomposition
+        ttags = [t for t in tn.tag_map if t.startswith("T")]
+        if len(ttags) < 2:
+            return None
+        where = [str(t) for t in rng.choice(ttags, size=int(rng.integers(1, len(ttags))), replace=False)]
+        sec = tn.select_any(where)
+        sec_outer = list(sec.outer_inds())
+        if len(sec_outer) < 2:
+            return None
+        left = [ix for ix in sec_outer if rng.random() < 0.5] or sec_outer[:1]
+        if len(left) == len(sec_outer):
+            left = left[:-1]
+        r = tn.replace_with_svd(where, left, 0.0, method="svd", inplace=inplace)
+        return name, (r if r is not None else tn)
     if name in ("canonize_between", "compress_between", "insert_gauge", "tensor_pair"):
         tc_ = two_connected()
         if tc_ is None:
@@ -662,6 +680,7 @@ def one_rewrite(rng, tn, hyper):
                                   equalize_norms=gen.choice(rng, [False, True]), inplace=inplace)
     elif name == "gauge_all_simple":
         r = tn.gauge_all_simple(max_iterations=int(rng.integers(1, 6)),
+                                **({"damping": float(gen.choice(rng, [0.2, 0.5]))} if rng.random() < 0.35 else {}),
                                 power=float(gen.choice(rng, [1.0, 0.5])),
                                 fuse_multibonds=bool(rng.random() < 0.7),
                                 equalize_norms=gen.choice(rng, [False, True]), inplace=inplace)
@@ -672,7 +691,8 @@ def one_rewrite(rng, tn, hyper):
         if not tags:
             return None
         r = tn.gauge_local(gen.choice(rng, tags), max_distance=int(rng.integers(1, 3)),
-                           method=gen.choice(rng, ["canonize", "simple"]), inplace=inplace)
+                           method=gen.choice(rng, ["canonize", "simple"]), inplace=inplace,
+                           **({"equalize_norms": gen.choice(rng, [True, 1.0])} if rng.random() < 0.35 else {}))
     elif name == "compress_all":
         kw = {"canonize": bool(rng.random() < 0.5),
               "mode": gen.choice(rng, ["auto", "basic", "virtual-tree"])}
